@@ -712,4 +712,57 @@ func managerCase(r *evid.Run, rg *rand.Rand, cs int64) {
 	}
 	r.Hit("manager_encryptions_racing_with_lock", len(recs))
 
+	// A watching-only manager has no private or script crypto key (its buffers are
+	// all-zero placeholders): it must not hand out "ciphertexts" sealed under them,
+	// nor accept a ciphertext anybody could have made with the all-zero key, nor
+	// open what the keyed manager sealed.
+	var keyed []byte
+	if len(recs) > 0 {
+		keyed = recs[0].ct
+	}
+	err = walletdb.Update(db, func(tx walletdb.ReadWriteTx) error { return m.ConvertToWatchingOnly(tx.ReadWriteBucket(ns)) })
+	if err != nil {
+		r.Violation("manager-convert", err.Error(), "manager", cs, nil)
+		return
+	}
+	m.Close()
+	var wm *waddrmgr.Manager
+	err = walletdb.View(db, func(tx walletdb.ReadTx) error {
+		var e error
+		wm, e = waddrmgr.Open(tx.ReadBucket(ns), []byte("pub"), params)
+		return e
+	})
+	if err != nil {
+		r.Violation("manager-reopen-watch-only", err.Error(), "manager", cs, nil)
+		return
+	}
+	defer wm.Close()
+	var fnonce [24]byte
+	rg.Read(fnonce[:])
+	forged := secretbox.Seal(fnonce[:], []byte("forged under the all-zero key"), &fnonce, &zeroKey)
+	for _, kt := range []waddrmgr.CryptoKeyType{waddrmgr.CKTPrivate, waddrmgr.CKTScript} {
+		if ct, err := wm.Encrypt(kt, []byte("secret")); err == nil {
+			what := fmt.Sprintf("a watching-only manager (reopened) encrypts with key type %d", kt)
+			if len(ct) > 24 {
+				var n [24]byte
+				copy(n[:], ct[:24])
+				if _, ok := secretbox.Open(nil, ct[24:], &n, &zeroKey); ok {
+					what += "; the ciphertext opens under the ALL-ZERO key, it is bound to no passphrase"
+				}
+			}
+			r.Violation("manager-watch-only-encrypts", what, "manager", cs, nil)
+			return
+		}
+		if out, err := wm.Decrypt(kt, forged); err == nil || out != nil {
+			r.Violation("manager-watch-only-accepts-forged", fmt.Sprintf("a watching-only manager accepts, for key type %d, a ciphertext made with the all-zero key", kt), "manager", cs, nil)
+			return
+		}
+		if keyed != nil && kt == waddrmgr.CKTPrivate {
+			if out, err := wm.Decrypt(kt, keyed); err == nil || out != nil {
+				r.Violation("manager-watch-only-decrypts", "a watching-only manager opens a ciphertext of the private crypto key", "manager", cs, nil)
+				return
+			}
+		}
+		r.Hit("manager_watch_only_private_key_requests_refused", 3)
+	}
 }
